@@ -6,7 +6,7 @@ cd /repo || exit 2
 if ! git diff --quiet; then echo "repo dirty"; exit 2; fi
 git apply "$patch" || { echo "patch does not apply"; exit 2; }
 trap 'git -C /repo checkout -- . ' EXIT
-cd /verif/harness && cargo build 2>&1 | grep -E "^error" -A 8
+cp /verif/known_findings.json /var/tmp/mutrun/; cd /verif/harness && cargo build 2>&1 | grep -E "^error" -A 8
 for c in "$@"; do
   out=$(VERIF_DIR=/var/tmp/mutrun timeout 1200 ./target/debug/verif $c --tier $tier 2>&1)
   code=$?
